@@ -75,7 +75,13 @@ func zzSetupTotal(dir, pkg string, keywords []string) {
 	err = setup(c) // a panic escaping here is the violation
 	// goroutines the setup started run until they block; a panic there crashes the server too
 	verifrt.DrainGoroutines()
-	verifrt.Observe("setup", err != nil)
+	// tls `load <dir>` walks the file system: natively that is the machine's real tree (e.g. "/"),
+	// under the engine the empty in-memory one, so only "returned without crashing" is compared there
+	envDependent := false
+	for _, t := range toks {
+		envDependent = envDependent || (dir == "tls" && t.Text == "load")
+	}
+	verifrt.Observe("setup", err != nil || envDependent)
 }
 
 func VerifH11Basicauth() { zzSetupTotal("basicauth", "github.com/tmpim/casket/caskethttp/basicauth", []string{"exclude", "realm", "/", "user", "pw", "htpasswd=f"}) }
